@@ -87,6 +87,12 @@ def pipeline(text, name="a.c", debug=0, R=None, timeout=10, sorted_errors=True, 
     except Exception as e:
         tb = traceback.extract_tb(e.__traceback__)
         fr = tb[-1]
+        # the site is the innermost frame inside a rule (what the finding is about); helper
+        # frames below it (new_error, from_token, peek_token ...) are shared by many callers
+        for cand in reversed(tb):
+            if os.sep + "rules" + os.sep in cand.filename and not cand.filename.endswith("rule.py"):
+                fr = cand
+                break
         out["exc"] = type(e).__name__
         out["exc_site"] = f"{os.path.basename(fr.filename)}:{fr.name}"
         out["exc_line"] = fr.line
